@@ -477,6 +477,22 @@ let run_lex_delta (x : sexp) : string =
   let bs = List.map n_of_int (bytes_of_hex h) in
   String.concat "" (List.map (show_tok false) (LexDelta.lex_delta bs)) ^ "|" ^ string_of_n (LexDelta.num_end_tokens bs)
 
+(* ---- C18: command line decisions ------------------------------------------------- *)
+let run_cli (x : sexp) : string =
+  let opt = function A "-" -> None | A s -> Some (intern s) | _ -> failwith "opt" in
+  match x with
+  | L [A sub; flag; envb; envl; config; A ok; A bres] ->
+      let s = match sub with "build" -> Cli.Build | "run" -> Cli.Run | "emit" -> Cli.Emit | _ -> failwith "sub" in
+      let names = ref [] in
+      let nm o = (match o with A "-" -> () | A v -> names := (intern v, v) :: !names | _ -> ()); opt o in
+      let f = nm flag and eb = nm envb and el = nm envl and c = nm config in
+      let clang = intern "clang" and lli = intern "lli" in
+      names := (clang, "clang") :: (lli, "lli") :: !names;
+      let backend = match Cli.backend_for s f eb el c clang lli with None -> "none" | Some b -> List.assoc b !names in
+      let b = match bres with "spawnfail" -> Cli.SpawnFailed | "signal" -> Cli.Spawned None | n -> Cli.Spawned (Some (n_of_string n)) in
+      Printf.sprintf "backend=%s invoked=%b success=%b" backend (Cli.invokes_backend s (ok = "1")) (Cli.tool_succeeds s (ok = "1") b)
+  | _ -> failwith "cli"
+
 let dispatch (stream : string) (x : sexp) : string =
   match stream with
   | "labels" -> run_labels x
@@ -488,6 +504,7 @@ let dispatch (stream : string) (x : sexp) : string =
   | "layout" -> run_layout x
   | "literal" -> run_literal x
   | "linkage" -> run_linkage x
+  | "cli" -> run_cli x
   | "lex-alpha" -> run_lex_alpha x
   | "lex-delta" -> run_lex_delta x
   | "tables" -> run_tables (match x with A n -> int_of_string n | _ -> 64)
